@@ -128,6 +128,11 @@ def run_property(propmod, root, tier="quick", only_rules=None):
             # keep going: a violation found by another rule must still be reported;
             # the run is only "analysis broken" (exit 2) if nothing else is wrong
             ctx.analysis_errors.append("%s: %s" % (rid, e))
+        except (IndexError, KeyError, AttributeError, TypeError, ValueError) as e:
+            # the rule met a shape of the code it was not written for: undecided, never a silent pass
+            tb = traceback.extract_tb(e.__traceback__)
+            where = "%s:%s" % (os.path.basename(tb[-1].filename), tb[-1].lineno) if tb else "?"
+            ctx.analysis_errors.append("%s: undecided (the rule does not understand the shape of the code it looks at: %s: %s at %s)" % (rid, type(e).__name__, e, where))
         counts[rid] = len(ctx.obs) - before
     ctx.current_rule = None
     missed = []
